@@ -299,8 +299,8 @@ func c16ListingErrors(c *Ctx) {
 		{"S3Store.Prune", func(o string) bool { return o == "field:ObjectInfo.Err" }},
 		{"SFTPStore.Prune", func(o string) bool { return strings.Contains(o, "Walker).Err#0") }},
 		{"GCStore.Prune", func(o string) bool { return strings.Contains(o, "ObjectIterator).Next#1") }},
-		{"LocalStore.Prune", func(o string) bool { return o == "param:err" }},
-		{"LocalStore.Verify", func(o string) bool { return o == "param:err" }},
+		{"LocalStore.Prune", nil},  // nil: the error parameter of the filepath.Walk callback, whatever its name
+		{"LocalStore.Verify", nil},
 	}
 	for _, sp := range specs {
 		fn := c.mustFn(sp.key)
@@ -323,6 +323,14 @@ func c16ListingErrors(c *Ctx) {
 		}
 		helperChecked := map[*ssa.Function]bool{}
 		for _, f := range fam {
+			origin := sp.origin
+			if origin == nil {
+				var errParam string
+				if ps := f.Params; len(ps) >= 3 && isErrorType(ps[len(ps)-1].Type()) && f.Signature.Results().Len() == 1 && isErrorType(f.Signature.Results().At(0).Type()) {
+					errParam = "param:" + ps[len(ps)-1].Name()
+				}
+				origin = func(o string) bool { return errParam != "" && o == errParam }
+			}
 			for _, b := range f.Blocks {
 				iff := lastIf(b)
 				if iff == nil {
@@ -336,7 +344,7 @@ func c16ListingErrors(c *Ctx) {
 				if isNilConst(cm.x) {
 					subj = cm.y
 				}
-				if !onlyOrigins(subj, sp.origin) {
+				if !onlyOrigins(subj, origin) {
 					continue
 				}
 				n++
@@ -491,14 +499,49 @@ func c16NameRoundtrip(c *Ctx) {
 		if fn == nil {
 			continue
 		}
-		splits := calls(fn, named("strings.Split"))
-		if len(splits) != 1 {
-			c.bad(key+":shape", fn.Pos(), "expected one strings.Split of the key, found %d", len(splits))
+		// the key that is taken apart: what the id string handed to ChunkIDFromString is cut out
+		// of - by strings.Split and indexing, or by slicing at a separator found in it
+		parses := calls(fn, named("desync.ChunkIDFromString"))
+		if len(parses) == 0 {
+			c.bad(key+":shape", fn.Pos(), "idFromName does not parse an id with ChunkIDFromString")
+			continue
+		}
+		var keys []ssa.Value
+		seenK := map[ssa.Value]bool{}
+		var trace func(v ssa.Value, depth int)
+		trace = func(v ssa.Value, depth int) {
+			if depth > 10 || seenK[v] {
+				return
+			}
+			seenK[v] = true
+			for _, l := range leaves(v) {
+				switch x := l.(type) {
+				case *ssa.Slice:
+					trace(x.X, depth+1)
+					continue
+				case *ssa.UnOp:
+					if ia, ok := x.X.(*ssa.IndexAddr); ok && x.Op == token.MUL {
+						trace(ia.X, depth+1)
+						continue
+					}
+				case *ssa.Call:
+					if nm := callee(x); nm == "strings.Split" || nm == "strings.SplitN" {
+						trace(x.Call.Args[0], depth+1)
+						continue
+					}
+				}
+				keys = append(keys, l)
+			}
+		}
+		trace(parses[0].Common().Args[0], 0)
+		if len(keys) == 0 {
+			c.bad(key+":shape", fn.Pos(), "the string parsed as chunk id has no recognisable source")
 			continue
 		}
 		n++
 		okAll, why := true, ""
-		for _, l := range leaves(splits[0].Common().Args[0]) {
+		anchor := parses[0]
+		for _, l := range keys {
 			ts, _ := callOf(l)
 			if ts == nil || callee(ts) != "strings.TrimSuffix" {
 				okAll, why = false, "the key is not the result of strings.TrimSuffix: "+l.String()
@@ -520,7 +563,7 @@ func c16NameRoundtrip(c *Ctx) {
 				}
 			}
 		}
-		c.verdict(okAll, key+":inverse-of-nameFromID", splits[0].Pos(), "id = TrimSuffix(TrimPrefix(name, s.prefix), ext) split at '/'", why+": idFromName no longer undoes nameFromID; listed chunks are skipped as 'not a chunk' and survive pruning")
+		c.verdict(okAll, key+":inverse-of-nameFromID", anchor.Pos(), "id = TrimSuffix(TrimPrefix(name, s.prefix), ext) split at '/'", why+": idFromName no longer undoes nameFromID; listed chunks are skipped as 'not a chunk' and survive pruning")
 	}
 	cut := 0
 	for _, fn := range c.subjects() {
